@@ -15,6 +15,7 @@ CONSTANT PolySpecs  \* nl + 10*len1 + 1000*len2 + 100000*len3 + 10000000*a
 CONSTANT LoopLens   \* lengths of the lone (lossless) loops
 CONSTANT LineLens   \* polyline lengths
 CONSTANT UnionLens  \* cell union lengths
+CONSTANT ManySpecs  \* lossless polygons of more than 12 loops: n*100 + z = n loops of 3 vertices, loop z has none
 CONSTANT Double     \* allow a second mutation behind the first
 
 VASeq == SetToSortSeq(VA, <)
@@ -26,6 +27,12 @@ GenLoop(n, a, j) == LoopOf([i \in 1..n |-> VASeq[(((a + j) * i + j * i * i) % Le
 SpecLoops(P) ==
     LET nl == P % 10  a == P \div 10000000
     IN  [j \in 1..nl |-> GenLoop((P \div (10 * 100 ^ (j - 1))) % 100, a, j)]
+
+\* a polygon with more than 12 loops keeps a cumulative edge table; a zero-vertex loop (which the
+\* lossless decoder accepts) in the middle gives that table two equal consecutive entries
+ManyLoops(sp) == LET n == sp \div 100  z == sp % 100
+                 IN  [j \in 1..n |-> GenLoop(IF j = z THEN 0 ELSE 3, n, j)]
+ManyList == SetToSortSeq(ManySpecs, <)
 
 CellA == [f |-> 3, p |-> <<>>]
 CellB == [f |-> 0, p |-> <<2, 1>>]
@@ -55,13 +62,18 @@ BaseSeq ==
     \o If("PolygonL" \in Types,
           [i \in 1..Len(PolyList) |-> LET ls == SpecLoops(PolyList[i])
                                       IN  Base("Polygon", "lossless", ls, <<>>, 0, EncPolygonLossless(ls))])
+    \o If("PolygonL" \in Types,
+          [i \in 1..Len(ManyList) |-> LET ls == ManyLoops(ManyList[i])
+                                      IN  Base("Polygon", "lossless", ls, <<>>, 0, EncPolygonLossless(ls))])
     \o If("PolygonC" \in Types,
           [i \in 1..Len(PolyList) |-> LET ls == SpecLoops(PolyList[i])
                                           L == IF Len(AllVerts(ls)) = 0 THEN RealMaxLevel ELSE SnapLevel(AllVerts(ls))
                                       IN  Base("Polygon", "compressed", ls, <<>>, L, EncPolygonCompressed(ls, L, W))])
 
-\* long float payloads are mutated at every 11th field only
-Mutable(fs, i) == fs[i].k # "f64" \/ Len(fs) <= 60 \/ i % 11 = 0
+\* long float payloads are mutated at every 11th field only; of a very long field sequence only
+\* the head and every 5th other field
+Mutable(fs, i) == /\ fs[i].k # "f64" \/ Len(fs) <= 60 \/ i % 11 = 0
+                  /\ Len(fs) <= 150 \/ i <= 12 \/ i % 5 = 0
 Muts(fs) == {m \in SingleMuts(fs) : m.at = 0 \/ Mutable(fs, m.at)}
 
 VARIABLE st
